@@ -75,7 +75,7 @@ def _classify(ctx, mi):
 
 
 def run(ctx):
-    sf = env.load_selfies()
+    sf = env.varied(env.load_selfies(), ctx)
     hooks.attach_m1()
     hooks.attach_m1_encoder()
     hooks.attach_m2()
